@@ -12,6 +12,29 @@ def register(reg):
     contract(reg, f'{F}:AST._define', P, {'self': 'ASTD', 'keys': 'seq', 'list_keys': 'Val'}, ret='None', verify=False,
              modifies=['self'], ensures=['self == uf_defined(old_self, keys, list_keys)'],
              note='generator-driven loops; bounded check B:C01/ast-define')
+    # the same function proved on its loops: every listed name that is not yet a key becomes one, list names with [] (they come
+    # first), the others with None; nothing else changes (C01: names of a rule are pre-bound)
+    LK = 'any(uf_safekey(strval(list_keys[j])) == s for j in range(0, {n}))'
+    SK = 'any(uf_safekey(strval(keys[j])) == s for j in range(0, {n}))'
+    STR = ['all(isinstance(keys[j], str) for j in range(0, len(keys)))', 'all(isinstance(list_keys[j], str) for j in range(0, len(list_keys)))']
+
+    def state(nl, nk):
+        lk, sk = LK.format(n=nl), SK.format(n=nk)
+        return [f'forall_keys(self, lambda s: self.dkeys[s] == (old_self.dkeys[s] or {lk} or {sk}))',
+                f'forall_keys(self, lambda s: self.dvals[s] == (old_self.dvals[s] if old_self.dkeys[s] or not ({lk} or {sk}) else '
+                f'([] if {lk} else None)))']
+    contract(reg, f'{F}:AST._define#lists', ['C01'], {'self': 'ASTD', 'keys': 'seq', 'list_keys': 'seq'}, ret='None', modifies=['self'],
+             requires=STR,
+             invariants={0: state('__i0', '0'), 1: state('len(list_keys)', '__i1')},
+             ensures=[('property', c) for c in state('len(list_keys)', 'len(keys)')])
+    def state0(nk):
+        sk = SK.format(n=nk)
+        return [f'forall_keys(self, lambda s: self.dkeys[s] == (old_self.dkeys[s] or {sk}))',
+                f'forall_keys(self, lambda s: self.dvals[s] == (old_self.dvals[s] if old_self.dkeys[s] or not ({sk}) else None))']
+    contract(reg, f'{F}:AST._define#nolist', ['C01'], {'self': 'ASTD', 'keys': 'seq', 'list_keys': 'None'}, ret='None', modifies=['self'],
+             requires=STR[:1], defaults={'list_keys': None},
+             invariants={0: state0('0'), 1: state0('__i1')},
+             ensures=[('property', c) for c in state0('len(keys)')])
     contract(reg, f'{F}:AST._set', P, {'self': 'ASTD', 'key': 'str', 'node': 'Val'}, ret='None', modifies=['self'],
              ensures=[('property', 'self == dict_with(old_self, uf_safekey(key), spec_cstadd(dict_get(old_self, uf_safekey(key)), node))')])
     contract(reg, f'{F}:AST._setlist', P, {'self': 'ASTD', 'key': 'str', 'node': 'Val'}, ret='None', modifies=['self'],
